@@ -8,11 +8,9 @@ vars == <<path, min, glen, extra, bad>>
 blen == glen + extra
 Init == path \in Paths /\ min \in Mins /\ glen \in GLens /\ extra \in Extras /\ bad \in {0, 1}
 Next == UNCHANGED vars
-\* Model hypothesis confirmed on the real code (known finding C31-direct-unix-ignores-policy-minimum):
-\* the direct POSIX path checks a fixed 15-byte minimum instead of the account's effective minimum.
-KnownDirect == path = "direct_unix" /\ min > FixMin /\ blen >= FixMin /\ blen < min
-Inv == (L2Why(path, min, Max, FixMin, glen, blen, bad) = "ok") => (KnownDirect \/ L1Stored(min, Max, glen, blen, bad))
+Inv == (L2Why(path, min, Max, FixMin, glen, blen, bad) = "ok") => L1Stored(min, Max, glen, blen, bad)
 Emit == PrintT(<<"CASE", path, min, glen, blen, bad>>)
-ReachKnown == ~(KnownDirect /\ L2Why(path, min, Max, FixMin, glen, blen, bad) = "ok")
-ReachUnitGap == ~(L2Why(path, min, Max, FixMin, glen, blen, bad) = "ok" /\ ~UnitExact(min, Max, glen, blen, bad) /\ ~KnownDirect)
+\* the direct path refuses a password that meets the fixed minimum but not the policy minimum
+ReachKnown == ~(path = "direct_unix" /\ min > FixMin /\ glen >= FixMin /\ glen < min /\ L2Why(path, min, Max, FixMin, glen, blen, bad) = "tooshort")
+ReachUnitGap == ~(L2Why(path, min, Max, FixMin, glen, blen, bad) = "ok" /\ ~UnitExact(min, Max, glen, blen, bad))
 =============================================================================
